@@ -307,6 +307,15 @@ func c03Case(c *mon.Ctx, idx int, r *mon.Rand) {
 			}
 		}
 
+		if kind != "test" {
+			var log []mon.Event
+			if prec != nil {
+				log, _, _ = prec.Snapshot()
+			} else {
+				log, _, _ = crec.Snapshot()
+			}
+			checkHistPairs(c, kind, log, histExpect{Name: name, IsDur: effDur, V: effV, D: effD, SamplesV: vs, SamplesD: ds, Mult: mult}, desc)
+		}
 		// counts: per upper bound, delivered == expected; NaNs may add at most one each
 		if effDur {
 			for u, n := range expD {
